@@ -102,6 +102,18 @@ def constants_of(text):
     return consts
 
 
+def const_value(name, consts, depth=0):
+    """numeric value of `const NAME: usize = <expr over literals and other constants>;`"""
+    if name not in consts or depth > 8:
+        raise Unsupported("unknown constant %s" % name)
+    expr = consts[name]
+    expr = re.sub(r"[A-Z][A-Z0-9_]*", lambda m: str(const_value(m.group(0), consts, depth + 1)), expr)
+    expr = re.sub(r"(\d)_(\d)", r"\1\2", expr)
+    if not re.fullmatch(r"[0-9 *+()/-]+", expr):
+        raise Unsupported("constant %s is not a numeric expression: %s" % (name, expr))
+    return int(eval(expr.replace("/", "//"), {"__builtins__": {}}))
+
+
 class Parser(object):
     """Pratt parser producing (coq expression text, type) pairs; statements are translated to nested lets."""
 
@@ -239,11 +251,7 @@ class Parser(object):
                 self.expect(")")
                 return ("(%s %s)" % (name, inner[0]), "res")
             if re.fullmatch(r"[A-Z][A-Z0-9_]*", name):
-                if name not in self.consts:
-                    raise Unsupported("unknown constant %s" % name)
-                sub = Parser(tokenize(self.consts[name]), self.consts, None, self.known)
-                e = sub.expr()
-                return ("(%s)" % e[0], "N")
+                return (str(const_value(name, self.consts)), "N")     # constants are folded to their numeric value
             return (name, self.vars.get(name, "N"))
         raise Unsupported("unexpected token %r" % (tok,))
 
